@@ -41,6 +41,8 @@ pub struct GenDict {
     pub matrix: Vec<Vec<i16>>, // [right][left]
     pub space_clean: bool,     // generated so that C12's precondition holds
     pub unk_covered: bool,     // every category has at least one unk.def row
+    /// bigram.right / bigram.left / bigram.cost / dual: build a raw or dual connector instead of matrix.def
+    pub bigram: Option<(String, String, String, bool)>,
 }
 
 pub struct GenOpts {
@@ -229,7 +231,7 @@ pub fn gen_dict(rng: &mut Rng, o: &GenOpts) -> GenDict {
     } else {
         None
     };
-    GenDict { cats, ranges, unk, sys, user, nright, nleft, matrix, space_clean, unk_covered }
+    GenDict { cats, ranges, unk, sys, user, nright, nleft, matrix, space_clean, unk_covered, bigram: None }
 }
 
 impl GenDict {
@@ -274,8 +276,13 @@ impl GenDict {
         let c = self.char_def();
         let u = Self::rows_csv(&self.unk);
         let user = self.user.as_ref().map(|r| Self::rows_csv(r));
+        let bigram = self.bigram.clone();
         guarded(move || {
-            let d = vibrato::SystemDictionaryBuilder::from_readers(lex.as_bytes(), m.as_bytes(), c.as_bytes(), u.as_bytes())?;
+            let d = match bigram {
+                Some((r, l, cost, dual)) => vibrato::SystemDictionaryBuilder::from_readers_with_bigram_info(
+                    lex.as_bytes(), r.as_bytes(), l.as_bytes(), cost.as_bytes(), c.as_bytes(), u.as_bytes(), dual)?,
+                None => vibrato::SystemDictionaryBuilder::from_readers(lex.as_bytes(), m.as_bytes(), c.as_bytes(), u.as_bytes())?,
+            };
             match user {
                 Some(t) => d.reset_user_lexicon_from_reader(Some(t.as_bytes())),
                 None => Ok(d),
